@@ -9,7 +9,7 @@ from ..cfg import CFG
 from ..model import Func, own_nodes, unparse
 from ..pipeline import Pipeline
 from ..rows import RowFlow
-from ..util import assignments_to, calls, const_str, names_in
+from ..util import influences_result, assignments_to, calls, const_str, names_in
 from ..values import Env, Val, texts
 from . import c18
 
@@ -346,6 +346,24 @@ def rule_b4(ctx, scope: Set[str]) -> None:
                 continue  # the constructor fills the container it has just created
             if not any(n is b for b, _ in bad):
                 bad.append((n, why + " alias"))
+        from ..shared import memo_complete
+
+        kept = []
+        for n, why in bad:
+            cont = None
+            if isinstance(n, (ast.Assign, ast.AugAssign)):
+                for t in (n.targets if isinstance(n, ast.Assign) else [n.target]):
+                    if isinstance(t, ast.Subscript):
+                        cont = unparse(t.value)
+            elif isinstance(n, ast.Call) and isinstance(n.func, ast.Attribute):
+                cont = unparse(n.func.value)
+            if cont is not None and ("store into" in why or "mutation of" in why or "() on" in why):
+                okm, whym = memo_complete(f, cont)
+                if okm:
+                    ctx.instance("C06-B4", "%s: %s is a memo table (%s)" % (q.split("synrbl.", 1)[-1], cont, whym), f.loc(n), ok=True)
+                    continue
+            kept.append((n, why))
+        bad = kept
         ctx.instance("C06-B4", q.split("synrbl.", 1)[-1], f.loc(), ok=not bad, nontrivial=bool(bad) or bool(globals_declared) or f.is_classmethod or bool(sflow.aliases(f)))
         for n, why in bad:
             ctx.finding("C06-B4", "%s:shared-state:%s" % (q.split("synrbl.", 1)[-1], why.split()[-1]), f.loc(n), "%s on the pipeline path: results of one reaction can depend on reactions processed before it" % why)
@@ -467,6 +485,18 @@ def rule_b6(ctx, scope: Set[str]) -> None:
     ctx.require(bool(_lossy_constructs(fxf)), "lossy-key detector fixture did not fire")
 
 
+def _is_write_target(n: ast.AST) -> bool:
+    """the attribute node is the object of a subscript store / mutating call / augmented assignment"""
+    par = getattr(n, "_parent", None)
+    if isinstance(par, ast.Subscript) and par.value is n and isinstance(par.ctx, (ast.Store, ast.Del)):
+        return True
+    if isinstance(par, ast.Attribute) and par.value is n and par.attr in ("append", "extend", "update", "add", "insert", "setdefault", "clear", "pop", "remove"):
+        return True
+    if isinstance(par, ast.AugAssign) and par.target is n:
+        return True
+    return False
+
+
 def long_lived_instances(ctx):
     """The Balancer and every stage object stored (transitively) in its attributes."""
     out, work, seen = [], [ctx.balancer], set()
@@ -529,8 +559,20 @@ def rule_b7(ctx, reach: Set[str], rule_id: str = "C06-B7", reader_filter=None) -
         for attr, ws in sorted(writes.items()):
             if attr in cls.methods or any(attr in c.methods for c in prog.mro(cls)):
                 continue  # property setter target etc.
-            rs = reads.get(attr, [])
+            rs = [(m, n) for m, n in reads.get(attr, []) if influences_result(n) or not isinstance(getattr(n, "ctx", None), ast.Load)]
+            # the implicit read of `self.x += 1` / `self.x[k] = v` matters only if something else reads the value
+            effective = [(m, n) for m, n in rs if isinstance(n.ctx, ast.Load) and not _is_write_target(n)]
+            if not effective:
+                ctx.instance(rule_id, "%s.%s is written on the pipeline path but read only for logging / not at all" % (cls.name, attr), ws[0][0].loc(ws[0][1]), ok=True, nontrivial=False)
+                continue
+            rs = effective
             if reader_filter is not None and not any(reader_filter(m) for m, _ in rs):
+                continue
+            from ..shared import memo_complete
+
+            memo_fns = {m.qualname for m, _stmt, plain in ws if not plain}
+            if memo_fns and all(memo_complete(prog.functions[mq], "%s.%s" % (prog.functions[mq].params[0], attr))[0] for mq in memo_fns) and not any(plain for _m, _s, plain in ws):
+                ctx.instance(rule_id, "%s.%s is a memo table keyed by every input of %s" % (cls.name, attr, sorted(x.rsplit(".", 1)[-1] for x in memo_fns)), ws[0][0].loc(ws[0][1]), ok=True)
                 continue
             cfgs = {}
             bad = None
